@@ -111,6 +111,12 @@ inductive Err where
   | fault        -- the model's inputs are not well formed (dangling type reference, oracle miss)
   deriving DecidableEq, Repr
 
+instance {ε α} [DecidableEq ε] [DecidableEq α] : DecidableEq (Except ε α)
+  | .ok a, .ok b => if h : a = b then isTrue (by rw [h]) else isFalse (fun h' => by cases h'; exact h rfl)
+  | .error a, .error b => if h : a = b then isTrue (by rw [h]) else isFalse (fun h' => by cases h'; exact h rfl)
+  | .ok _, .error _ => isFalse (fun h' => by cases h')
+  | .error _, .ok _ => isFalse (fun h' => by cases h')
+
 /-! ## strconv -/
 
 def isDigit (c : UInt8) : Bool := 48 ≤ c && c ≤ 57
@@ -277,8 +283,8 @@ def parseScalar (sch : Schema) (orc : Oracle) (k : Kind) (text : Bytes) : Except
   | .bool => (optToExcept (parseBool text)).map .bool
   | .int32 => (optToExcept (parseInt text 32)).map .int
   | .int64 => (optToExcept (parseInt text 64)).map .int
-  | .uint32 => (optToExcept (parseUint text 32)).map (fun n => .int n)
-  | .uint64 => (optToExcept (parseUint text 64)).map (fun n => .int n)
+  | .uint32 => (optToExcept (parseUint text 32)).map (fun n => Val.int (Int.ofNat n))
+  | .uint64 => (optToExcept (parseUint text 64)).map (fun n => Val.int (Int.ofNat n))
   | .string => .ok (.bytes text)
   | .bytes => (optToExcept (parseBytes text)).map .bytes
   | .float =>
@@ -309,8 +315,8 @@ def parseScalar (sch : Schema) (orc : Oracle) (k : Kind) (text : Bytes) : Except
 def parseMessage (orc : Oracle) (ref : Name) (text : Bytes) : Except Err Msg :=
   if ref = wInt64 then (optToExcept (parseInt text 64)).map (fun i => wrapperEntries (.int i))
   else if ref = wInt32 then (optToExcept (parseInt text 32)).map (fun i => wrapperEntries (.int i))
-  else if ref = wUInt64 then (optToExcept (parseUint text 64)).map (fun n => wrapperEntries (.int n))
-  else if ref = wUInt32 then (optToExcept (parseUint text 32)).map (fun n => wrapperEntries (.int n))
+  else if ref = wUInt64 then (optToExcept (parseUint text 64)).map (fun n => wrapperEntries (.int (Int.ofNat n)))
+  else if ref = wUInt32 then (optToExcept (parseUint text 32)).map (fun n => wrapperEntries (.int (Int.ofNat n)))
   else if ref = wBool then (optToExcept (parseBool text)).map (fun b => wrapperEntries (.bool b))
   else if ref = wString then .ok (wrapperEntries (.bytes text))
   else if ref = wBytes then (optToExcept (parseBytes text)).map (fun b => wrapperEntries (.bytes b))
@@ -379,6 +385,7 @@ structure Target where
   msg : Msg            -- the request message after the `Mutable` side effects
   pre : Path           -- path of the message the body is decoded into
   fd : Option Field    -- the body field (none = whole message)
+  deriving DecidableEq
 
 /-- the loop of traverseFieldPath over the elements of `strings.Split(path, ".")`. Every failure is an
     error of the binding itself. -/
